@@ -141,8 +141,11 @@ def make_model(rng, nr, force=None):
     cols, fams, dist = [], [], {}
     labels, lkind = _labels(rng, d)
     special = force if force is not None else rng.choice(['none', 'none', 'none', 'const', 'copy', 'nearcopy'])
+    pool = FAMS
+    if special == 'parametric':          # scipy marginals only: their cdf accepts the 2-d block of a duplicated label
+        special, pool = 'none', ('gaussian', 'uniform')
     for j in range(d):
-        fam = rng.choice(FAMS)
+        fam = rng.choice(pool)
         z = Z[:, j]
         if fam == 'gaussian':
             x = rng.choice([1e-3, 1.0, 250.0]) * z + rng.choice([0.0, -7.0, 1e4])
@@ -181,7 +184,7 @@ def models_for(ctx, stream, count):
     rng = ctx.rng(stream, 'models')
     nr = ctx.nprng(stream, 'models')
     out = []
-    forced = ['const', 'copy', 'nearcopy', 'none']
+    forced = ['const', 'copy', 'nearcopy', 'none', 'parametric']
     for k in range(count):
         m = make_model(rng, nr, forced[k] if k < len(forced) else None)
         out.append(m)
@@ -587,7 +590,7 @@ def run(ctx, lean):
     nr = ctx.nprng('tie')
     np.random.seed(nr.randint(2 ** 31))      # scipy's QMC integrator draws from the global stream
     tr = Track()
-    models = models_for(ctx, 'tie', 6 + 3 * ctx.scale)
+    models = models_for(ctx, 'tie', 7 + 3 * ctx.scale)
     ctx.models = models
     for m in models:
         tie_model(ctx, lean, m, rng, nr, tr, nbatch=3)
@@ -737,6 +740,13 @@ def oracles(ctx, models, rng, nr, nbatch, deep):
                 ctx.fail_input('cumulative_distribution', inp_of(m, 'frame', base, sub), c0[1],
                                'values in [0,1], one per row', 'cumulative_distribution:range')
                 continue
+            refc = call(lambda: stats.multivariate_normal.cdf(indep_scores(m, sub), cov=m.corr, allow_singular=True))
+            checks += 1
+            if refc[0] == 'ok' and (refc[1].shape != c0[1].shape or not np.all(np.abs(refc[1] - c0[1]) <= EPS_CDF)):
+                ctx.fail_input('cumulative_distribution', inp_of(m, 'frame', base, sub),
+                               {'cdf': c0[1], 'mvn_cdf_of_scores': refc[1]},
+                               'cumulative_distribution(X) = multivariate_normal(0, stored correlation).cdf(normal scores of X) '
+                               '(within the QMC error 1e-3)', 'cumulative_distribution:not-mvn-of-scores')
             forms = [f for f in forms_of(rng, m, sub) if f[0] != 'frame']
             for form, c, X in rng.sample(forms, min(2, len(forms))):
                 r = call(lambda: mdl.cumulative_distribution(X))
@@ -770,9 +780,9 @@ def search(ctx, deep):
     np.random.seed(nr.randint(2 ** 31))
     models = list(getattr(ctx, 'models', [])) if not deep else []
     if deep or not models:
-        models = models + models_for(ctx, 'search', 24 if deep else 4)
+        models = models + models_for(ctx, 'search', 40 if deep else 4)
     before = len(ctx.failing)
-    checks = oracles(ctx, models, rng, nr, nbatch=5 if deep else 1, deep=deep)
+    checks = oracles(ctx, models, rng, nr, nbatch=6 if deep else 1, deep=deep)
     ctx.support = {'oracle_checks': checks, 'models': len(models), 'failures': len(ctx.failing) - before, 'deep': deep}
 
 
@@ -781,8 +791,7 @@ def replay(ctx, payload):
     ctx.seed = payload.get('seed', ctx.seed)
     search(ctx, True)
     if not any(f['class'] == payload.get('class') for f in ctx.failing[before:]):
-        class _L:   # models of the tie stream, in case the input came from run()
-            pass
-        models = models_for(ctx, 'tie', 6 + 3 * 12)
+        # the models of the tie stream, in case the input came from run()
+        models = models_for(ctx, 'tie', 7 + 3 * 12)
         oracles(ctx, models, ctx.rng('oracle'), ctx.nprng('oracle'), nbatch=2, deep=False)
     return any(f['class'] == payload.get('class') for f in ctx.failing[before:])
